@@ -2046,9 +2046,415 @@ Proof.
     rewrite of_client_aget by exact (ni_nd _ _ _ _ HN g).
     rewrite (ni_get _ _ _ _ HN g f c eq_refl Hkf).
     assert (Hget : sp_get (c, g, f) sp = Some s) by (apply In_sp_get; [apply Hok|exact Hin]).
-    unfold skey in *. rewrite Hget. reflexivity.
+    match goal with |- some_ents (match ?o with Some _ => _ | None => _ end) = _ =>
+      replace o with (Some s) by (symmetry; exact Hget) end.
+    reflexivity.
   - now apply nodup_ents_of.
   - intros c' s. rewrite (in_ents_of _ _ _ _ _ Hok). split.
     + intros (-> & Hk & Hget). apply kind_of_shared_inv in Hk. tauto.
     + intros (-> & Hg & Hget). split; [reflexivity|]. split; [now apply kind_of_shared|exact Hget].
 Qed.
+
+(* ================================================================== *)
+(* 12. frame properties of the specification                           *)
+(* ================================================================== *)
+
+Lemma leave_frame sp c :
+  (forall c' g f, c' <> c -> sp_get (c', g, f) (spec_step sp (OUnsubAll c)) = sp_get (c', g, f) sp) /\
+  (forall g f, sp_get (c, g, f) (spec_step sp (OUnsubAll c)) = None).
+Proof.
+  cbn [spec_step]. unfold sp_del_client. split.
+  - intros c' g f Hne.
+    rewrite (sp_get_filter (fun key => negb (str_eqb c (fst (fst key))))). cbn [fst].
+    destruct (str_eqb_spec c c') as [E|E]; [congruence|reflexivity].
+  - intros g f.
+    rewrite (sp_get_filter (fun key => negb (str_eqb c (fst (fst key))))). cbn [fst].
+    now rewrite str_eqb_refl.
+Qed.
+
+Lemma unsub_frame sp c topic k :
+  k <> (c, fst (split_topic topic), snd (split_topic topic)) ->
+  sp_get k (spec_step sp (OUnsub c topic)) = sp_get k sp.
+Proof. intros H. rewrite spec_step_unsub. now apply sp_get_del_other. Qed.
+
+(* ================================================================== *)
+(* 13. counters                                                        *)
+(* ================================================================== *)
+
+Lemma u64_add_succ (a : nat) : u64_add (u64 a) 1 = u64 (S a).
+Proof.
+  unfold u64_add, u64. rewrite N.add_mod_idemp_l by discriminate.
+  now rewrite Nat2N.inj_succ, N.add_1_r.
+Qed.
+
+Lemma u64_add_mod (a : N) : u64_add (a mod U64) 1 = ((a + 1) mod U64)%N.
+Proof. unfold u64_add. now rewrite N.add_mod_idemp_l by discriminate. Qed.
+
+Lemma u64_sub_add (a b : nat) : u64_sub (u64 (a + b)) (N.of_nat b) = u64 a.
+Proof.
+  unfold u64_sub, u64. rewrite Nat2N.inj_add.
+  set (A := N.of_nat a). set (B := N.of_nat b).
+  assert (HU : U64 <> 0%N) by discriminate.
+  pose proof (N.div_mod B U64 HU) as Hdm. pose proof (N.mod_lt B U64 HU) as Hlt.
+  set (q := (B / U64)%N) in *. set (r := (B mod U64)%N) in *.
+  replace (((A + B) mod U64 + U64 - r)%N) with (((A + B) mod U64 + (U64 - r))%N)
+    by (generalize ((A + B) mod U64)%N; intros m; lia).
+  rewrite N.add_mod_idemp_l by exact HU.
+  replace ((A + B + (U64 - r))%N) with ((A + (q + 1) * U64)%N) by (unfold U64 in *; lia).
+  now rewrite N.mod_add by exact HU.
+Qed.
+
+Lemma u64_sub_one (a : nat) : u64_sub (u64 (S a)) 1 = u64 a.
+Proof. rewrite <- (u64_sub_add a 1). now rewrite Nat.add_1_r. Qed.
+
+Definition pcl (c : cid) (key : skey) : bool := str_eqb c (fst (fst key)).
+
+Lemma count_client_keys c sp : count_client c sp = length (filter (pcl c) (map fst sp)).
+Proof.
+  unfold count_client. rewrite <- (map_fst_filter (pcl c)), map_length. reflexivity.
+Qed.
+
+Lemma length_keys (sp : spec) : length sp = length (map fst sp).
+Proof. now rewrite map_length. Qed.
+
+Lemma kdel_notin key L : ~ In key L -> kdel key L = L.
+Proof.
+  induction L as [|x r IH]; intros H; [reflexivity|]. cbn [kdel].
+  destruct (skey_eqb_spec key x) as [E|E]; [exfalso; apply H; now left|].
+  rewrite IH; [reflexivity|]. intros Hin. apply H. now right.
+Qed.
+
+Lemma kdel_len key L : In key L -> length L = S (length (kdel key L)).
+Proof.
+  induction L as [|x r IH]; intros H; [destruct H|]. cbn [kdel].
+  destruct (skey_eqb_spec key x) as [E|E]; [reflexivity|].
+  destruct H as [H|H]; [congruence|]. cbn [length]. now rewrite <- IH.
+Qed.
+
+Lemma filter_kdel_len (p : skey -> bool) key L :
+  In key L ->
+  length (filter p L) = ((if p key then 1 else 0) + length (filter p (kdel key L)))%nat.
+Proof.
+  induction L as [|x r IH]; intros H; [destruct H|]. cbn [kdel].
+  destruct (skey_eqb_spec key x) as [E|E].
+  - subst x. cbn [filter]. destruct (p key); reflexivity.
+  - destruct H as [H|H]; [congruence|]. cbn [filter]. specialize (IH H).
+    destruct (p x); cbn [length]; lia.
+Qed.
+
+Lemma filter_snoc_len {A} (p : A -> bool) (L : list A) (x : A) :
+  length (filter p (L ++ [x])) = (length (filter p L) + (if p x then 1 else 0))%nat.
+Proof. rewrite filter_app, app_length. cbn [filter]. destruct (p x); reflexivity. Qed.
+
+Lemma partition_len {A} (q : A -> bool) (L : list A) :
+  length L = (length (filter (fun x => negb (q x)) L) + length (filter q L))%nat.
+Proof.
+  induction L as [|x r IH]; [reflexivity|]. cbn [filter length].
+  destruct (q x); cbn [negb length]; lia.
+Qed.
+
+Lemma filter_partition_len {A} (p q : A -> bool) (L : list A) :
+  length (filter p L) =
+  (length (filter p (filter (fun x => negb (q x)) L)) + length (filter p (filter q L)))%nat.
+Proof.
+  induction L as [|x r IH]; [reflexivity|]. cbn [filter].
+  destruct (q x); cbn [negb filter]; destruct (p x); cbn [length]; lia.
+Qed.
+
+Lemma sp_get_none_notin key sp : sp_get key sp = None -> ~ In key (map fst sp).
+Proof. intros H Hin. now apply sp_get_in_keys in Hin. Qed.
+
+Lemma sp_get_some_in key s sp : sp_get key sp = Some s -> In key (map fst sp).
+Proof. intros H. apply sp_get_In in H. apply in_map_iff. exists (key, s). now split. Qed.
+
+(* lengths after the three spec operations *)
+Lemma len_sp_set key s sp :
+  length (sp_set key s sp) = match sp_get key sp with Some _ => length sp | None => S (length sp) end.
+Proof.
+  rewrite !length_keys, map_fst_sp_set. destruct (sp_get key sp); [reflexivity|].
+  rewrite app_length. cbn [length]. lia.
+Qed.
+
+Lemma count_sp_set c' c g f s sp :
+  count_client c' (sp_set (c, g, f) s sp) =
+  match sp_get (c, g, f) sp with
+  | Some _ => count_client c' sp
+  | None => if str_eqb c' c then S (count_client c' sp) else count_client c' sp
+  end.
+Proof.
+  rewrite !count_client_keys, map_fst_sp_set. destruct (sp_get (c, g, f) sp); [reflexivity|].
+  rewrite filter_snoc_len. unfold pcl at 2. cbn [fst]. destruct (str_eqb c' c); lia.
+Qed.
+
+Lemma len_sp_del key sp :
+  length sp = match sp_get key sp with Some _ => S (length (sp_del key sp)) | None => length (sp_del key sp) end.
+Proof.
+  rewrite !length_keys, map_fst_sp_del. destruct (sp_get key sp) as [s|] eqn:E.
+  - apply kdel_len. now apply (sp_get_some_in key s).
+  - now rewrite kdel_notin by now apply sp_get_none_notin.
+Qed.
+
+Lemma count_sp_del c' c g f sp :
+  count_client c' sp =
+  match sp_get (c, g, f) sp with
+  | Some _ => if str_eqb c' c then S (count_client c' (sp_del (c, g, f) sp)) else count_client c' (sp_del (c, g, f) sp)
+  | None => count_client c' (sp_del (c, g, f) sp)
+  end.
+Proof.
+  rewrite !count_client_keys, map_fst_sp_del. destruct (sp_get (c, g, f) sp) as [s|] eqn:E.
+  - rewrite (filter_kdel_len (pcl c') (c, g, f)) by now apply (sp_get_some_in _ s).
+    unfold pcl at 1. cbn [fst]. destruct (str_eqb c' c); reflexivity.
+  - now rewrite kdel_notin by now apply sp_get_none_notin.
+Qed.
+
+Lemma len_sp_del_kind k c sp :
+  length sp = (length (sp_del_kind k c sp) + length (keys_of k c sp))%nat.
+Proof.
+  unfold keys_of, sp_del_kind. rewrite map_length.
+  rewrite (length_keys sp), (length_keys (filter _ sp)).
+  rewrite (map_fst_filter (fun key => negb (selk k c key))).
+  apply partition_len.
+Qed.
+
+Lemma count_sp_del_kind c' k c sp :
+  count_client c' sp =
+  (count_client c' (sp_del_kind k c sp) + (if str_eqb c' c then length (keys_of k c sp) else 0))%nat.
+Proof.
+  unfold keys_of, sp_del_kind. rewrite map_length, !count_client_keys.
+  rewrite (map_fst_filter (fun key => negb (selk k c key))).
+  rewrite (filter_partition_len (pcl c') (selk k c)). f_equal.
+  destruct (str_eqb_spec c' c) as [E|E].
+  - subst c'. rewrite filter_filter, (filter_ext _ (selk k c)); [reflexivity|].
+    intros [[c2 g2] f2]. unfold pcl. cbn [fst selk].
+    destruct (str_eqb c c2); cbn [andb]; [apply andb_true_r|reflexivity].
+  - rewrite filter_filter, (filter_ext _ (fun _ => false)).
+    + clear. induction (map fst sp) as [|x r IH]; [reflexivity|exact IH].
+    + intros [[c2 g2] f2]. unfold pcl. cbn [fst selk].
+      destruct (str_eqb_spec c c2) as [E1|E1]; cbn [andb]; [|reflexivity].
+      subst c2. destruct (str_eqb_spec c' c) as [E2|E2]; [contradiction|apply andb_false_r].
+Qed.
+
+(* the counters, relative to ghost totals G (global) and C (per client, None = never seen) *)
+Definition mk_stats (a : N) (n : nat) : stats := {| st_total := (a mod U64)%N; st_cur := u64 n |}.
+
+Record CInv (d : db) (sp : spec) (G : N) (C : cid -> option N) : Prop := {
+  ci_g : gstats d = mk_stats G (length sp);
+  ci_c : forall c, aget c (cstats d) =
+                   match C c with Some a => Some (mk_stats a (count_client c sp)) | None => None end;
+  ci_z : forall c, C c = None -> count_client c sp = 0%nat }.
+
+Lemma bump_mk a n : bump (mk_stats a n) = mk_stats (a + 1) (S n).
+Proof. unfold bump, mk_stats. cbn [st_total st_cur]. now rewrite u64_add_mod, u64_add_succ. Qed.
+
+Lemma drop_mk a n m : drop (N.of_nat m) (mk_stats a (n + m)) = mk_stats a n.
+Proof. unfold drop, mk_stats. cbn [st_total st_cur]. now rewrite u64_sub_add. Qed.
+
+Lemma drop1_mk a n : drop 1 (mk_stats a (S n)) = mk_stats a n.
+Proof. unfold drop, mk_stats. cbn [st_total st_cur]. now rewrite u64_sub_one. Qed.
+
+Lemma sub_existed d sp c s :
+  Inv d sp -> no_slash (s_share s) = true ->
+  mem_str (index_key (s_share s) (s_filter s))
+          (keys_at c (index_of (kind_of (s_share s) (s_filter s)) d)) =
+  match sp_get (c, s_share s, s_filter s) sp with Some _ => true | None => false end.
+Proof.
+  intros HI Hns. rewrite (inv_idx _ _ HI).
+  now apply mem_keys_of; [apply (inv_ok _ _ HI)| |].
+Qed.
+
+Definition sub_new (sp : spec) (c : cid) (s : sub) : N :=
+  match sp_get (c, s_share s, s_filter s) sp with Some _ => 0%N | None => 1%N end.
+
+Lemma CInv_sub d sp G C c s :
+  Inv d sp -> CInv d sp G C -> no_slash (s_share s) = true ->
+  CInv (fst (db_subscribe c s d)) (sp_set (c, s_share s, s_filter s) s sp)
+       (G + sub_new sp c s)
+       (fun c' => if str_eqb c' c
+                  then Some ((match C c with Some a => a | None => 0 end) + sub_new sp c s)%N
+                  else C c').
+Proof.
+  intros HI [Hg Hc Hz] Hns.
+  pose proof (sub_existed d sp c s HI Hns) as Hex.
+  rewrite db_subscribe_nf. cbn [fst].
+  set (k := kind_of (s_share s) (s_filter s)) in *.
+  set (idx := index_of k d) in *.
+  set (key := index_key (s_share s) (s_filter s)) in *.
+  set (ex := mem_str key (keys_at c idx)) in *.
+  assert (Hcsk : aget c idx <> None -> aget c (cstats d) <> None) by apply (inv_cs _ _ HI).
+  unfold sub_new.
+  constructor.
+  - rewrite gstats_upd, len_sp_set.
+    destruct (sp_get (c, s_share s, s_filter s) sp); rewrite Hex.
+    + now rewrite N.add_0_r.
+    + rewrite Hg. apply bump_mk.
+  - intros c'. rewrite cstats_upd, (sub_cs_get c idx (cstats d) ex Hcsk), count_sp_set.
+    destruct (str_eqb_spec c' c) as [E|E]; [|rewrite Hc; now destruct (sp_get (c, s_share s, s_filter s) sp)].
+    subst c'. f_equal. unfold stat_or_zero. rewrite Hc.
+    destruct (sp_get (c, s_share s, s_filter s) sp) eqn:Eg; rewrite Hex.
+    + rewrite N.add_0_r. destruct (C c) as [a|] eqn:EC; [reflexivity|].
+      exfalso. assert (Hm : ex = true) by exact Hex.
+      apply (mem_keys_at_some key) in Hm. apply Hcsk in Hm. rewrite Hc, EC in Hm. now elim Hm.
+    + destruct (C c) as [a|] eqn:EC; [apply bump_mk|].
+      rewrite (Hz c EC). reflexivity.
+  - intros c'. destruct (str_eqb_spec c' c) as [E|E]; [discriminate|].
+    intros HC. rewrite count_sp_set. apply Hz in HC.
+    apply str_eqb_neq in E. rewrite E.
+    destruct (sp_get (c, s_share s, s_filter s) sp); exact HC.
+Qed.
+
+Lemma unsub_existed d sp c g f :
+  Inv d sp -> no_slash g = true ->
+  mem_str (index_key g f) (keys_at c (index_of (kind_of g f) d)) =
+  match sp_get (c, g, f) sp with Some _ => true | None => false end.
+Proof.
+  intros HI Hns. rewrite (inv_idx _ _ HI).
+  now apply mem_keys_of; [apply (inv_ok _ _ HI)| |].
+Qed.
+
+Lemma CInv_unsub d sp G C c topic :
+  Inv d sp -> CInv d sp G C ->
+  CInv (db_unsubscribe c topic d) (spec_step sp (OUnsub c topic)) G C.
+Proof.
+  intros HI [Hg Hc Hz].
+  rewrite db_unsubscribe_nf, spec_step_unsub.
+  pose proof (split_topic_no_slash topic) as Hns.
+  set (g := fst (split_topic topic)) in *. set (f := snd (split_topic topic)).
+  pose proof (unsub_existed d sp c g f HI Hns) as Hex.
+  set (k := kind_of g f) in *. set (idx := index_of k d) in *.
+  set (key := index_key g f) in *. set (ex := mem_str key (keys_at c idx)) in *.
+  pose proof (len_sp_del (c, g, f) sp) as Hlen.
+  constructor.
+  - rewrite gstats_upd, Hg. destruct (sp_get (c, g, f) sp); rewrite Hex.
+    + rewrite Hlen. apply drop1_mk.
+    + now rewrite Hlen.
+  - intros c'. rewrite cstats_upd. pose proof (count_sp_del c' c g f sp) as Hcnt.
+    destruct (sp_get (c, g, f) sp) eqn:Eg; rewrite Hex.
+    + assert (Hcs : aget c (cstats d) <> None).
+      { apply (inv_cs _ _ HI k). apply (mem_keys_at_some key). exact Hex. }
+      rewrite (Hc c) in *. destruct (C c) as [a|] eqn:EC; [|now elim Hcs].
+      rewrite aget_aset. destruct (str_eqb_spec c' c) as [E|E].
+      * subst c'. rewrite EC. f_equal. rewrite Hcnt. apply drop1_mk.
+      * rewrite Hc. now rewrite Hcnt.
+    + rewrite Hc. now rewrite Hcnt.
+  - intros c' HC. apply Hz in HC. pose proof (count_sp_del c' c g f sp) as Hcnt.
+    destruct (sp_get (c, g, f) sp); [destruct (str_eqb c' c)|]; lia.
+Qed.
+
+Lemma CInv_unsub_all_kind d sp G C k c :
+  Inv d sp -> CInv d sp G C ->
+  CInv (db_unsub_all_kind k c d) (sp_del_kind k c sp) G C.
+Proof.
+  intros HI [Hg Hc Hz]. rewrite db_unsub_all_kind_nf.
+  rewrite (inv_idx _ _ HI).
+  constructor.
+  - rewrite gstats_upd, Hg. rewrite (len_sp_del_kind k c sp) at 1. apply drop_mk.
+  - intros c'. rewrite cstats_upd. pose proof (count_sp_del_kind c' k c sp) as Hcnt.
+    rewrite (Hc c). destruct (C c) as [a|] eqn:EC.
+    + rewrite aget_aset. destruct (str_eqb_spec c' c) as [E|E].
+      * subst c'. rewrite EC. f_equal. rewrite Hcnt. apply drop_mk.
+      * rewrite Hc. rewrite Nat.add_0_r in Hcnt. now rewrite Hcnt.
+    + rewrite Hc. destruct (str_eqb_spec c' c) as [E|E].
+      * subst c'. rewrite EC. reflexivity.
+      * rewrite Nat.add_0_r in Hcnt. now rewrite Hcnt.
+  - intros c' HC. apply Hz in HC. pose proof (count_sp_del_kind c' k c sp) as Hcnt. lia.
+Qed.
+
+Lemma CInv_ext d sp G G' C C' :
+  G = G' -> (forall c, C c = C' c) -> CInv d sp G C -> CInv d sp G' C'.
+Proof.
+  intros <- HC [Hg Hc Hz]. constructor; [exact Hg| |].
+  - intros c. rewrite <- HC. apply Hc.
+  - intros c. rewrite <- HC. apply Hz.
+Qed.
+
+Lemma spec_total_app a : forall sp b who,
+  spec_total sp (a ++ b) who = (spec_total sp a who + spec_total (fold_left spec_step a sp) b who)%N.
+Proof.
+  induction a as [|o r IH]; intros sp b who; [reflexivity|].
+  cbn [app spec_total fold_left]. rewrite IH. now rewrite N.add_assoc.
+Qed.
+
+Lemma ever_app c a b : ever_subscribed c (a ++ b) = ever_subscribed c a || ever_subscribed c b.
+Proof. unfold ever_subscribed. apply existsb_app. Qed.
+
+Lemma spec_total_never c ops : forall sp,
+  ever_subscribed c ops = false -> spec_total sp ops (Some c) = 0%N.
+Proof.
+  induction ops as [|o r IH]; intros sp H; [reflexivity|].
+  cbn [ever_subscribed existsb] in H. apply orb_false_iff in H as [H1 H2].
+  cbn [spec_total]. rewrite (IH _ H2). destruct o as [c0 s|c0 t|c0]; try reflexivity.
+  rewrite H1. now destruct (sp_get (c0, s_share s, s_filter s) sp).
+Qed.
+
+Definition Gof (ops : list op) : N := spec_total [] ops None.
+Definition Cof (ops : list op) (c : cid) : option N :=
+  if ever_subscribed c ops then Some (spec_total [] ops (Some c)) else None.
+
+Lemma CInv_init : CInv db_init [] 0 (fun _ => None).
+Proof. constructor; reflexivity. Qed.
+
+Lemma CInv_run ops : wf_ops ops = true -> CInv (db_run ops) (spec_run ops) (Gof ops) (Cof ops).
+Proof.
+  induction ops as [|o ops IH] using rev_ind; intros Hwf.
+  - apply CInv_init.
+  - unfold wf_ops in Hwf. rewrite forallb_app in Hwf. apply andb_true_iff in Hwf as [Hwf Ho].
+    cbn [forallb] in Ho. rewrite andb_true_r in Ho.
+    specialize (IH Hwf). pose proof (Inv_run ops Hwf) as HI.
+    unfold db_run, spec_run. rewrite !fold_left_app. cbn [fold_left].
+    fold (db_run ops). fold (spec_run ops).
+    destruct o as [c s|c t|c].
+    + cbn [wf_op] in Ho. apply andb_true_iff in Ho as [_ Hns].
+      cbn [db_step spec_step].
+      refine (CInv_ext _ _ _ _ _ _ _ _ (CInv_sub _ _ _ _ c s HI IH Hns)); cycle 1.
+      * intros c'. unfold Cof. rewrite ever_app, spec_total_app.
+        cbn [ever_subscribed existsb spec_total]. rewrite orb_false_r. fold (spec_run ops).
+        unfold sub_new. destruct (str_eqb_spec c' c) as [E|E].
+        -- subst c'. rewrite orb_true_r, N.add_0_r. f_equal.
+           destruct (ever_subscribed c ops) eqn:Ev; [reflexivity|].
+           now rewrite (spec_total_never c ops [] Ev).
+        -- rewrite orb_false_r. destruct (ever_subscribed c' ops); [|reflexivity].
+           f_equal. destruct (sp_get (c, s_share s, s_filter s) (spec_run ops)); now rewrite !N.add_0_r.
+      * unfold Gof. rewrite spec_total_app. cbn [spec_total]. fold (spec_run ops).
+        unfold sub_new. now rewrite N.add_0_r.
+    + cbn [db_step].
+      refine (CInv_ext _ _ _ _ _ _ _ _ (CInv_unsub _ _ _ _ c t HI IH)).
+      * unfold Gof. rewrite spec_total_app. cbn [spec_total]. now rewrite !N.add_0_r.
+      * intros c'. unfold Cof. rewrite ever_app, spec_total_app.
+        cbn [ever_subscribed existsb spec_total]. now rewrite !orb_false_r, !N.add_0_r.
+    + cbn [db_step spec_step]. rewrite sp_del_client_kinds. unfold db_unsubscribe_all.
+      pose proof (Inv_unsub_all_kind _ _ KUser c HI) as HI1.
+      pose proof (Inv_unsub_all_kind _ _ KSys c HI1) as HI2.
+      pose proof (CInv_unsub_all_kind _ _ _ _ KUser c HI IH) as HC1.
+      pose proof (CInv_unsub_all_kind _ _ _ _ KSys c HI1 HC1) as HC2.
+      refine (CInv_ext _ _ _ _ _ _ _ _ (CInv_unsub_all_kind _ _ _ _ KShared c HI2 HC2)).
+      * unfold Gof. rewrite spec_total_app. cbn [spec_total]. now rewrite !N.add_0_r.
+      * intros c'. unfold Cof. rewrite ever_app, spec_total_app.
+        cbn [ever_subscribed existsb spec_total]. now rewrite !orb_false_r, !N.add_0_r.
+Qed.
+
+Lemma already_fold ops : forall d sp, Inv d sp -> wf_ops ops = true ->
+  model_already d ops = expect_already sp ops.
+Proof.
+  induction ops as [|o r IH]; intros d sp HI Hwf; [reflexivity|].
+  cbn [wf_ops forallb] in Hwf. apply andb_true_iff in Hwf as [Ho Hr].
+  cbn [model_already expect_already].
+  rewrite (IH _ _ (Inv_step d sp o HI Ho) Hr). f_equal.
+  destruct o as [c s|c t|c]; try reflexivity.
+  cbn [wf_op] in Ho. apply andb_true_iff in Ho as [_ Hns].
+  rewrite db_subscribe_nf. cbn [snd]. now rewrite (sub_existed d sp c s HI Hns).
+Qed.
+
+Lemma counts_exact ops :
+  wf_ops ops = true ->
+  (st_total (gstats (db_run ops)), st_cur (gstats (db_run ops))) = expect_gstats ops /\
+  (forall c, db_client_stats c (db_run ops) =
+             match expect_cstats ops c with Some (a, b) => Some {| st_total := a; st_cur := b |} | None => None end) /\
+  model_already db_init ops = expect_already [] ops.
+Proof.
+  intros Hwf. destruct (CInv_run ops Hwf) as [Hg Hc _]. split; [|split].
+  - rewrite Hg. reflexivity.
+  - intros c. unfold db_client_stats, expect_cstats. rewrite Hc. unfold Cof.
+    destruct (ever_subscribed c ops); reflexivity.
+  - apply already_fold; [apply Inv_init|exact Hwf].
+Qed.
+
